@@ -49,6 +49,26 @@ func init() {
 		}
 		return L(L(rs...), B(c16HeldStateOK(sb, keys)))
 	}
+	// ONE []string, ONE SigBits built from it; steps [0,s,e,m] sb.CountPrefixes, [1,maxSize] ShardByPrefix(keys, maxSize)
+	// on the very same slice (result is C17's matter, not observed), [2] FirstDiffBits(keys); then the state flag
+	Exec["sigbits.SigBits/session"] = func(a []V) string {
+		keys := a[0].Strs()
+		sb := sigbits.New(keys)
+		var rs []string
+		for _, st := range a[1].L {
+			switch st.L[0].Int() {
+			case 0:
+				m0, cs := sb.CountPrefixes(st.L[1].I32(), st.L[2].I32(), st.L[3].I32())
+				rs = append(rs, L(I32(m0), I32s(cs)))
+			case 1:
+				sigbits.ShardByPrefix(keys, st.L[1].I32())
+				rs = append(rs, L(Int(0), L()))
+			default:
+				rs = append(rs, L(Int(0), I32s(sigbits.FirstDiffBits(keys))))
+			}
+		}
+		return L(L(rs...), B(c16HeldStateOK(sb, keys)))
+	}
 	Register("C16", genC16)
 }
 
@@ -363,6 +383,71 @@ func genC16(g *Gen) {
 			queries(keys, qs, "rand-queries/"+desc[:strings.Index(desc, "/")])
 		}
 	}
+	// (0a) cross-function sessions: between the queries on the object, ShardByPrefix and FirstDiffBits are called on
+	// the SAME key slice the object was built from (a cache keyed on the slice identity, a shared first-difference
+	// slice converted in place, shows in the next query and in the state flag)
+	{
+		session := func(keys []string, steps []string, nq, nsh, nfd int, bucket string) {
+			g.Stat(bucket)
+			key := ""
+			if nq >= 1 && nsh+nfd >= 1 {
+				key = fmt.Sprintf("ses/q%d/sh%d/fd%d/k%d", c16Bucket(nq, 1, 2, 4), c16Bucket(nsh, 0, 1), c16Bucket(nfd, 0, 1), c16Bucket(len(keys), 2, 3, 5, 12))
+			}
+			g.Do("sigbits.SigBits/session", L(Strs(keys), L(steps...)), key)
+		}
+		q := func(s, e, m int) string { return L(Int(0), Int(s), Int(e), Int(m)) }
+		sh := func(ms int) string { return L(Int(1), Int(ms)) }
+		fd := L(Int(2))
+		// every 2..4-key subset of a 6-string universe (first differences 0, 6, 8, 9, 14 ...: >= 8 and < 8):
+		// query, shard (maxSize 1 / 2 / len), the same query again; and shard first
+		uni := c16SortDedup([]string{"", "a", "a\x00", "ab", "aba", "b\x80"})
+		for mask := 0; mask < 1<<uint(len(uni)); mask++ {
+			var ks []string
+			for i := range uni {
+				if mask>>uint(i)&1 == 1 {
+					ks = append(ks, uni[i])
+				}
+			}
+			if len(ks) < 2 || len(ks) > 4 {
+				continue
+			}
+			for _, ms := range []int{1, 2, len(ks)} {
+				session(ks, []string{q(0, len(ks), 9), sh(ms), q(0, len(ks), 9)}, 2, 1, 0, "exh-session")
+				session(ks, []string{sh(ms), q(len(ks)-2, len(ks), 2), fd, q(0, 2, 9)}, 2, 1, 1, "exh-session")
+			}
+			session(ks, []string{fd, q(0, len(ks), 3), fd}, 1, 0, 2, "exh-session")
+		}
+		g.Exhaust = append(g.Exhaust, "SigBits/session: query / ShardByPrefix(maxSize 1, 2, len) / same query, and shard-first, on every 2..4-key subset of {'',a,a00,ab,aba,b80}")
+		for k := 0; k < g.N(120, 2500); k++ {
+			keys, desc := c16KeySet(g.R, g.R.Range(3, 14))
+			if len(keys) < 2 {
+				continue
+			}
+			var steps []string
+			nq, nsh, nfd := 0, 0, 0
+			for i, n := 0, g.R.Range(2, 7); i < n; i++ {
+				switch g.R.Intn(4) {
+				case 0:
+					steps = append(steps, sh(g.R.Pick(1, 2, 3, len(keys), len(keys)+1)))
+					nsh++
+				case 1:
+					steps = append(steps, fd)
+					nfd++
+				default:
+					s := g.R.Intn(len(keys) - 1)
+					e := g.R.Range(s+2, len(keys))
+					if g.R.Intn(3) == 0 {
+						s, e = 0, len(keys)
+					}
+					steps = append(steps, q(s, e, g.R.Pick(1, 2, 8, 9, 40)))
+					nq++
+				}
+			}
+			steps = append(steps, q(0, len(keys), 9))
+			nq++
+			session(keys, steps, nq, nsh, nfd, "rand-session/"+desc[:strings.Index(desc, "/")])
+		}
+	}
 	// (0b) LARGE key sets: prefix + big-endian counter, so that hundreds (thorough: > 65536) of adjacent pairs share
 	// one first-difference bit and a counter passes 2^8 (2^16): a narrow histogram / counter type shows
 	{
@@ -388,7 +473,11 @@ func genC16(g *Gen) {
 			g.Do("sigbits.CountPrefixes/counter", L(Str(c.p), Int(c.w), I(c.c0), Int(c.n), Int(c.s), Int(c.e), Int(c.m)),
 				fmt.Sprintf("ctr/n%d/s%d/m%d", c16Bucket(c.n, 300, 512, 600, 1000), c16B2i(c.s > 0), c16Bucket(c.m, 1, 9, 12, 20)))
 		}
-		bigs := []big{{"k", 2, 0, 4096, 0, 4096, 14}} // 2048 pairs in the last bit (linear oracle)
+		// 4096: 2048 pairs in the last bit (linear oracle); 8192 / 10000 keys: above the size where an implementation
+		// may start to split the work over goroutines -- these are the slowest cases of a quick run, so the harness
+		// runs them again under GOMAXPROCS 3, 33 and 97 (more procs than CPUs); the sub-range sits at the tail
+		bigs := []big{{"k", 2, 0, 4096, 0, 4096, 14}, {"k", 2, 0, 8192, 0, 8192, 15}, {"key", 2, 300, 10000, 9000, 10000, 12},
+			{"", 2, 0, 9001, 0, 9001, 16}}
 		if g.Thorough {
 			bigs = append(bigs, big{"k", 3, 0, 131072 + 5, 0, 131072 + 5, 20}, // 65538 pairs in the last bit
 				big{"", 3, 1 << 20, 140000, 7, 139999, 19})
@@ -396,7 +485,7 @@ func genC16(g *Gen) {
 		for _, c := range bigs {
 			g.Stat("counter-keys-big")
 			g.Do("sigbits.CountPrefixes/counter-big", L(Str(c.p), Int(c.w), I(c.c0), Int(c.n), Int(c.s), Int(c.e), Int(c.m)),
-				fmt.Sprintf("ctrbig/n%d/s%d", c16Bucket(c.n, 4096, 140000), c16B2i(c.s > 0)))
+				fmt.Sprintf("ctrbig/n%d/s%d", c16Bucket(c.n, 4096, 10000, 140000), c16B2i(c.s > 0)))
 		}
 	}
 	// (1) FirstDiffBits on ALL ordered pairs of strings of length 0..2 over {00,01,80,ff,'a'}
